@@ -6,6 +6,7 @@ CONSTANTS
   MaxTexts = 1
   Flags <- FlagWords
   Verbs <- Levels
+  TextShapes <- OnePlain
   Repaired = TRUE
   Depth = 0
   SeqLevels <- QuickLevels
